@@ -199,6 +199,31 @@ theorem bussync_coherent_of_ratio (w t R : Nat) (ht : 4 * R + 7 ≤ t) (ins : Li
     (bsRun w t (bsInit t) ins).o ∈ 0 :: (bsInputs ins).map (· % 2 ^ w) :=
   bussync_coherent_partial w t ins (bussync_no_spurious_timeout w t R ht ins hb)
 
+/-- **bussync_eventually.**  "After the input has been stable for long enough the output reflects it":
+    after any prefix `x`, let the input word be held at `v` during a continuation that consists of at least 12
+    consecutive blocks in each of which both clocks have at least one edge (any interleaving, any resolution;
+    12 ring advances = finishing the hand-shake in progress, one full round that loads `v`, and the four
+    output-side steps).  If the retry timer does not expire, `o = v` at the end. -/
+theorem bussync_eventually (w t v : Nat) (x : List BSIn) (blocks : List (List BSIn))
+    (hn : NoTimeout w t (bsInit t) (x ++ blocks.flatten))
+    (hb : ∀ blk ∈ blocks, 1 ≤ bsITicks blk ∧ 1 ≤ bsOTicks blk) (hlen : 12 ≤ blocks.length)
+    (hv : ∀ e ∈ blocks.flatten, e.i % 2 ^ w = v) :
+    (bsRun w t (bsInit t) (x ++ blocks.flatten)).o = v := by
+  obtain ⟨hn1, hn2⟩ := noTimeout_append w t x blocks.flatten _ hn
+  obtain ⟨p, hp⟩ := invP_run w t x _ _ (bsInvP_init t) hn1
+  have hok : GOk p 0 = true := (by decide : ∀ q : Fin 8, GOk q 0 = true) p
+  obtain ⟨h1, h2⟩ := dg_run w t v blocks.flatten _ p 0 hp ⟨by simp, by simp⟩ hn2 hv
+  obtain ⟨b1, b2⟩ := blocks_progress blocks (p, 0) hok hb
+  have hz : todo (arun (p, 0) blocks.flatten).1 (arun (p, 0) blocks.flatten).2 = 0 := by
+    rcases b2 with h | h
+    · have := todo_le p 0
+      dsimp only at h
+      omega
+    · exact h
+  have hG := todo_zero _ _ b1 hz
+  rw [bsRun_append]
+  exact h2.2 (by rw [hG]; rfl)
+
 /-- Non-vacuity: a schedule with drift bound `R = 1`, time-out 11, on which a word really crosses
     (`i = 2` is loaded into `ibuffer` and appears on `o`). -/
 example :
